@@ -170,7 +170,9 @@ func C19(run *hx.Run) {
 	rng := newRng(run, 19)
 	profiles := []hx.M{{"page_size": 1024, "rows": 120}, {"page_size": 4096, "rows": 200, "frag": true}}
 	if run.Thorough() {
-		profiles = append(profiles, hx.M{"page_size": 512, "rows": 800}, hx.M{"page_size": 65536, "rows": 300}, hx.M{"page_size": 2048, "rows": 500, "auto_vacuum": 1})
+		profiles = append(profiles, hx.M{"page_size": 512, "rows": 800}, hx.M{"page_size": 65536, "rows": 300}, hx.M{"page_size": 2048, "rows": 500, "auto_vacuum": 1},
+			hx.M{"page_size": 512, "rows": 4000, "features": []string{"plain", "alias", "wr", "big"}}, hx.M{"page_size": 8192, "rows": 1500, "frag": true},
+			hx.M{"page_size": 1024, "rows": 2500, "vacuum": true}, hx.M{"page_size": 16384, "rows": 900}, hx.M{"page_size": 32768, "rows": 600, "frag": true})
 	}
 	// (a) differential
 	forEachProfile(run, profiles, func(w *worker, d *hx.DB, idx int) {
@@ -460,10 +462,14 @@ func C19(run *hx.Run) {
 	// cancel racing the producer
 	trials := 40
 	if run.Thorough() {
-		trials = 400
+		trials = 4000
 	}
 	old := runtime.GOMAXPROCS(0)
-	for _, procs := range []int{1, 2, 16} {
+	procList := []int{1, 2, 16}
+	if run.Thorough() {
+		procList = []int{1, 2, 3, 4, 8, 16}
+	}
+	for _, procs := range procList {
 		runtime.GOMAXPROCS(procs)
 		for tr := 0; tr < trials; tr++ {
 			k := rng.Intn(nrows + 2)
